@@ -597,3 +597,59 @@ Proof.
   - unfold check_limits. destruct (_ <=? _); [|destruct (at_capacity _)];
       split; cbn [fst st_sm set_accept limit fwd]; assumption.
 Qed.
+
+(* ------------------------------------------------------------------ *)
+(** * Buffer pool *)
+
+Definition pool_ok (p : pool) : Prop :=
+  p_used p = N.of_nat (length (p_held p)) /\ p_used p <= p_cap p /\ p_cap p <= p_max p /\ NoDup (p_held p).
+
+Lemma pool_new_ok mn mx : pool_ok (pool_new mn mx).
+Proof. unfold pool_ok, pool_new. cbn. repeat split; try lia. constructor. Qed.
+
+Lemma pool_checkout_ok p id : pool_ok p -> pool_ok (fst (pool_checkout p id)).
+Proof.
+  intros (A & B & C & D). unfold pool_checkout.
+  destruct (lmem id (p_held p)) eqn:L; [repeat split; assumption|].
+  set (cap := if (p_used p =? p_cap p) && (p_cap p <? p_max p)
+              then N.max (p_cap p) (N.min (N.max (p_cap p * 2) 1) (p_max p)) else p_cap p).
+  assert (Hc : p_cap p <= cap /\ cap <= p_max p).
+  { unfold cap. destruct ((p_used p =? p_cap p) && (p_cap p <? p_max p)); lia. }
+  destruct (p_used p <? cap) eqn:U; cbn [fst]; unfold pool_ok; cbn [p_used p_cap p_max p_held].
+  - apply N.ltb_lt in U. repeat split; try lia.
+    + rewrite app_length. cbn [length]. lia.
+    + apply NoDup_snoc; [assumption|]. intros Hi. apply lmem_In in Hi. congruence.
+  - repeat split; try lia; assumption.
+Qed.
+
+Lemma pool_checkin_ok p id : pool_ok p -> pool_ok (pool_checkin p id).
+Proof.
+  intros (A & B & C & D). unfold pool_checkin.
+  destruct (lmem id (p_held p)) eqn:L; [|repeat split; assumption].
+  apply lmem_In in L. pose proof (lremove_length id (p_held p) D L) as LL.
+  unfold pool_ok. cbn [p_used p_cap p_max p_held]. repeat split; try lia.
+  apply lremove_nodup. assumption.
+Qed.
+
+Lemma pool_run_ok : forall ops p, pool_ok p -> pool_ok (fold_left pool_step ops p).
+Proof.
+  induction ops as [|o t IH]; intros p H; cbn [fold_left]; [assumption|].
+  apply IH. destruct o; cbn [pool_step]; [apply pool_checkout_ok|apply pool_checkin_ok]; assumption.
+Qed.
+
+(** a buffer is refused only when the pool is exhausted *)
+Lemma pool_checkout_live p id :
+  pool_ok p -> lmem id (p_held p) = false -> p_used p < p_max p -> snd (pool_checkout p id) = true.
+Proof.
+  intros (A & B & C & D) L U. unfold pool_checkout. rewrite L.
+  destruct ((p_used p =? p_cap p) && (p_cap p <? p_max p)) eqn:G.
+  - apply andb_prop in G. destruct G as [G1 G2]. apply N.eqb_eq in G1. apply N.ltb_lt in G2.
+    assert (X : (p_used p <? N.max (p_cap p) (N.min (N.max (p_cap p * 2) 1) (p_max p))) = true)
+      by (apply N.ltb_lt; lia).
+    rewrite X. reflexivity.
+  - apply andb_false_iff in G. destruct G as [G|G].
+    + apply N.eqb_neq in G. assert (X : (p_used p <? p_cap p) = true) by (apply N.ltb_lt; lia).
+      rewrite X. reflexivity.
+    + apply N.ltb_ge in G. assert (X : (p_used p <? p_cap p) = true) by (apply N.ltb_lt; lia).
+      rewrite X. reflexivity.
+Qed.
